@@ -387,6 +387,12 @@ func (c *ctx) structEvent(name string, exact bool) (M, error) {
 		return nil, err
 	}
 	ev["doc"] = d1
+	// the same value marshalled BY VALUE (as a field of another struct or a map element would be): the document is the same
+	if dv, err := json.Marshal(reflect.ValueOf(p).Elem().Interface()); err == nil {
+		if d3, err := rewrite(dv); err == nil {
+			ev["docv"] = d3
+		}
+	}
 	if res == "" {
 		d2, err := rewrite(doc2)
 		if err != nil {
